@@ -24,7 +24,7 @@ MCB4q == {0, 1, 3}
 MCTag4q == {1, 3, 4}
 MCDepths == {0, 1, 2}
 MCDeepen == {3, 4}
-MCPBs5 == {1, 3, 4}
-MCPBs4 == {1, 2, 3}
+MCPBs5 == {2, 3}
+MCPBs4 == {2, 3}
 MCDeepen2 == {2, 3}
 =============================================================================
